@@ -7,6 +7,7 @@ R4 deletion completeness; R5 queries are pure; R6 monotone port counts; R7 direc
 from __future__ import annotations
 
 import ast
+import copy
 
 from ..cfg import CFG, EXIT, RAISE
 from ..model import calls_in, call_name, kwarg, real_body, u, walk_no_nested
@@ -422,8 +423,6 @@ def r5_pure_queries(ctx, hugr, file) -> None:
 
 ROWS = [
     # method, expected expression over self and the method's parameters
-    ("outgoing_links", "self._node_links(node, self._links.fwd)", "outgoing links are enumerated from the forward map"),
-    ("incoming_links", "self._node_links(node, self._links.bck)", "incoming links are enumerated from the backward map"),
     ("outgoing_order_links", "(p.node for p in self.linked_ports(node.out(-1)))", "order successors are the nodes linked to out(-1)"),
     ("incoming_order_links", "(p.node for p in self.linked_ports(node.inp(-1)))", "order predecessors are the nodes linked to inp(-1)"),
     ("has_link", "dst in self.linked_ports(src)", "a link exists iff dst is among the ports linked to src"),
@@ -520,26 +519,26 @@ def r6_r7_tables(ctx, hugr, file, only=None) -> None:
         got = {k: "/".join(sorted(v)) for k, v in arms.items()}
         ctx.check(got == {"OutPort": "fwd", "InPort": "bck"}, "C04.R7", f"Hugr.{name}: direction table", file, m.lineno,
                   f"{name} must consult the forward map for out-ports and the backward map for in-ports", m, expected="OutPort->fwd, InPort->bck", found=str(got))
-    # generator-style enumerations (yield): structural
-    nl = hugr.methods.get("_node_links")
-    cnl = ctx.cfn(f"{HQ}._node_links")
-    loops = [n for n in ast.walk(cnl) if isinstance(n, ast.For)]
-    ok = len(loops) == 1 and isinstance(loops[0].target, ast.Name)
-    if ok:
-        o = loops[0].target.id
-        e = tmatch(loops[0].iter, T("range(self.num_ports(L_node, E_dir))"))
-        ok = e is not None
-        if ok:
-            # each port 0..n-1 of the direction of the map's keys, with everything linked to it
-            e2 = tall(loops[0].body, [f"L_p = L_node.port({o}, E_dir)", "yield (L_p, [*self._linked_ports(L_p, L_links)])"], dict(e)) or \
-                tall(loops[0].body, [f"yield (L_node.port({o}, E_dir), [*self._linked_ports(L_node.port({o}, E_dir), L_links)])"], dict(e))
-            params = [a.arg for a in nl.args.args[1:3]]
-            ok = e2 is not None and [e2["L_node"], e2["L_links"]] == params
-            if ok:
-                lk = params[1]
-                keyed = [h for t_ in (f"next(iter({lk}))", f"next(iter({lk}), ANY_)", f"next(iter({lk}.keys()))", f"next(iter({lk}.keys()), ANY_)") for h in tfind(cnl, T(t_))]
-                ok = bool(keyed) and e2["E_dir"].endswith("direction") or e2["E_dir"] == "direction"
-    ctx.check(ok, "C04.R7", "Hugr._node_links", file, nl.lineno, "per-node listings enumerate ports 0..n-1, each with all the ports linked to it", nl)
+    # per-node listings, stated on the public entry points with the private enumeration helper(s) seen through (canonical body):
+    #   [guard: nothing listed while the map is empty]  for o in range(num_ports(node, D)): yield (node.port(o, D), [*_linked_ports(node.port(o, D), MAP)])
+    # with MAP the forward map and D = OUTGOING for outgoing_links, the backward map and INCOMING for incoming_links; D may be
+    # read off the map's first key (the keys of fwd are out-ports, those of bck in-ports: BiMap[_SubPort[OutPort], _SubPort[InPort]])
+    ann = [f for f in hugr.fields if f.name == "_links"]
+    def expand_alias(e):
+        class A(ast.NodeTransformer):
+            def visit_Name(self, n):
+                v = hugr.module.assigns.get(n.id)
+                return copy.deepcopy(v) if isinstance(v, ast.Subscript) else n
+        return u(A().visit(copy.deepcopy(e)))
+    if not ann or expand_alias(ann[0].node.annotation) != "BiMap[_SubPort[OutPort], _SubPort[InPort]]":
+        ctx.broken("Hugr._links is no longer declared BiMap[_SubPort[OutPort], _SubPort[InPort]]")
+    for name, table, direction in (("outgoing_links", "self._links.fwd", "Direction.OUTGOING"), ("incoming_links", "self._links.bck", "Direction.INCOMING")):
+        m = hugr.methods.get(name)
+        if m is None:
+            ctx.broken(f"anchor vanished: Hugr.{name}")
+        ok, why = _listing_rule(ctx, name, table, direction)
+        ctx.check(ok, "C04.R7", f"Hugr.{name}", file, m.lineno,
+                  f"Hugr.{name} must enumerate ports 0..n-1 of {direction}, each with all the ports linked to it in {table}" + (f" [{why}]" if why else ""), m)
     lp = hugr.methods.get("_linked_ports")
     whiles = [n for n in ast.walk(lp) if isinstance(n, ast.While)]
     ok = len(whiles) == 1 and isinstance(whiles[0].test, ast.Compare) and isinstance(whiles[0].test.ops[0], ast.In) and any(
@@ -551,6 +550,67 @@ def r6_r7_tables(ctx, hugr, file, only=None) -> None:
     f = nd.find_field("children")
     ctx.check(f is not None and f.default_factory is not None and u(f.default_factory) == "list", "C04.R7", "NodeData.children: fresh list per node", nd.module.path,
               f.node.lineno if f else 1, "each node needs its own child list", f.node if f else None)
+
+
+def _listing_rule(ctx, name, table, direction):
+    cf = ctx.cfn(f"{HQ}.{name}", inline=("_node_links",))
+    node = cf.args.args[1].arg
+    defs = {}          # simple local definitions (aliases of the map, the direction read off its first key)
+    for n in ast.walk(cf):
+        if isinstance(n, ast.Assign) and len(n.targets) == 1 and isinstance(n.targets[0], ast.Name):
+            defs.setdefault(n.targets[0].id, []).append(n.value)
+
+    def val(e):
+        """e with the locals that have one simple definition replaced by it"""
+        from .. import norm
+        e = copy.deepcopy(e)
+        for _ in range(4):
+            m = {n.id: defs[n.id][0] for n in ast.walk(e) if isinstance(n, ast.Name) and len(defs.get(n.id, [])) == 1}
+            if not m:
+                break
+            e = norm._Subst(m).visit(e)
+        return u(e)
+
+    first_key = [f"next(iter({table}{k}){d})" for k in ("", ".keys()") for d in ("", ", None")]
+
+    def is_dir(e):
+        t = val(e)
+        return t == direction or t in [f"{k}.port.direction" for k in first_key]
+    loops = [n for n in ast.walk(cf) if isinstance(n, (ast.For, ast.While))]
+    if len(loops) != 1 or not isinstance(loops[0], ast.For) or not isinstance(loops[0].target, ast.Name):
+        return False, "expected one loop over the port offsets"
+    lp = loops[0]
+    o = lp.target.id
+    e = tmatch(lp.iter, T(f"range(self.num_ports({node}, E_dir))"))
+    if e is None:
+        return False, f"the loop runs over `{u(lp.iter)}`"
+    e2 = tall(lp.body, [f"L_p = {node}.port({o}, E_d2)", "yield (L_p, [*self._linked_ports(L_p, E_links)])"]) or \
+        tall(lp.body, [f"yield ({node}.port({o}, E_d2), [*self._linked_ports({node}.port({o}, E_d2), E_links)])"])
+    if e2 is None or len(lp.body) > 2:
+        return False, "loop body is not `yield (port, [*linked ports of port])`"
+    dirs = [ast.parse(e["E_dir"], mode="eval").body, ast.parse(e2["E_d2"], mode="eval").body]
+    if not all(is_dir(d) for d in dirs):
+        return False, f"direction {[val(d) for d in dirs]}"
+    if val(ast.parse(e2["E_links"], mode="eval").body) != table:
+        return False, f"linked ports are looked up in {val(ast.parse(e2['E_links'], mode='eval').body)}"
+    # nothing else yields / returns a value; the loop is reached on every path except an early `return` for an empty map
+    ys = [n for n in ast.walk(cf) if isinstance(n, (ast.Yield, ast.YieldFrom))]
+    if len(ys) != 1 or any(isinstance(n, ast.Return) and n.value is not None for n in ast.walk(cf)):
+        return False, "other yields / returns"
+    from ..paths import summaries
+    for p in summaries(cf.body, 64):
+        if p.kind == "raise":
+            return False, "a path raises"
+        if any(isinstance(x, ast.For) and any(isinstance(y, ast.Yield) for y in ast.walk(x)) for x in p.effects):
+            continue
+        # a path that skips the loop: only because the map is empty
+        empty = any(val(t) == table and not k for t, k in p.tests) or \
+            any(isinstance(t, ast.Call) and u(t.func) == "except_" and "StopIteration" in u(t) for t, k in p.tests) or \
+            any(val(t) in (f"len({table}) == 0", f"0 == len({table})") and k for t, k in p.tests) or \
+            any(val(t) in [f"{fk} is not None" for fk in first_key if fk.endswith("None)")] and not k for t, k in p.tests)
+        if not empty:
+            return False, "a path lists nothing although the map is not empty: " + p.describe()[:160]
+    return True, ""
 
 
 def order_link_rule(ctx, rule: str) -> None:
